@@ -48,6 +48,7 @@ from ..analysis.format_infer import (
 from ..ast.fpyast import (
     Abs,
     Add,
+    And,
     Assign,
     Cast,
     ContextStmt,
@@ -60,7 +61,9 @@ from ..ast.fpyast import (
     IfStmt,
     ListComp,
     Mul,
+    NaryOp,
     Neg,
+    Or,
     Round,
     StmtBlock,
     Sub,
@@ -231,6 +234,15 @@ class _RoundInsertInstance(SiteRewriter):
         iterables = [self._visit_expr(i, None) for i in e.iterables]
         elt = self._visit_expr(e.elt, None)
         return ListComp(targets, iterables, elt, e.loc)
+
+    def _visit_naryop(self, e: NaryOp, ctx: Any):
+        # `and` / `or` skip their later operands, so a hoist out of one would
+        # bind its own operands ahead of the statement and evaluate them anyway
+        if isinstance(e, (And, Or)) and e.args:
+            first = self._visit_expr(e.args[0], ctx)
+            rest = [self._visit_expr(arg, None) for arg in e.args[1:]]
+            return type(e)([first, *rest], e.loc)
+        return super()._visit_naryop(e, ctx)
 
     def _visit_if_expr(self, e: IfExpr, ctx: Any) -> IfExpr:
         # the condition is evaluated unconditionally; the branches are not, so
